@@ -252,7 +252,9 @@ fn result_json(op: &str, r: &OpResult) -> Value {
 }
 
 fn main() {
-    std::panic::set_hook(Box::new(|_| {}));
+    if std::env::var("CORR_PANIC_TRACE").is_err() {
+        std::panic::set_hook(Box::new(|_| {}));
+    }
     let args: Vec<String> = std::env::args().collect();
     let mut op = String::new();
     let mut n = 1000u64;
